@@ -133,6 +133,18 @@ Section P.
         destruct d'; simpl in Ev; inversion Ev; subst; auto. exfalso. apply Hnn. reflexivity.
   Qed.
 
+  (* the cache (re)built AFTER the damage: update_cache() validates what it reads (whatever it returns or raises, no
+     unvalidated state point reaches the cache file), so a fresh session opening by id afterwards is never wrong *)
+  Theorem update_cache_then_open_never_wrong : forall f s f' s' r i s'' sp,
+    Inv f s -> update_cache frepr loads_s f s = (f', s', r) ->
+    open_sp_by_id f' fresh i = (s'', Ok sp) ->
+    exists m, (m = i \/ resolve_id f' i = Ok m) /\ cid sp = m.
+  Proof.
+    intros f s f' s' r i s'' sp H E Eo.
+    pose proof (inv_update_cache_gen frepr loads_s _ _ _ _ _ _ H E) as H1.
+    eapply open_by_id_never_wrong; [|exact Eo]. split; [apply sound_nil|exact (proj2 H1)].
+  Qed.
+
   (* ================================================================ C. repair() touches state point files and
      directory names only *)
   (* a data path inside a job directory: anything but the state point file and the backend's temp name *)
